@@ -38,8 +38,13 @@ def make_grad(draw, gi, pi, t, shape, scale=1.0):
        "striped"          during the first sparse_steps steps every other slice along one dimension is exactly zero;
        "sparse_first"     during the first draw.get("sparse_steps", 2) steps the gradient has ONE non-zero entry (every mode-wise Gram matrix
                           is then exactly diagonal or zero: the diagonal fast path and its later hand-over to the general path are exercised,
-                          and most blocks see an exactly zero gradient); dense afterwards."""
+                          and most blocks see an exactly zero gradient); dense afterwards.
+       draw["grad_scales"] (optional): per-step magnitudes, cycled - gradients far smaller / larger than the accumulated history
+       (a step at 1e-10 after O(1) steps, a whole run at 1e-5 or 1e3): absolute thresholds hidden in the code show up here."""
     gen = torch.Generator().manual_seed(hash((draw["seed"], gi, pi, t)) % (2 ** 31))
+    sc = draw.get("grad_scales")
+    if sc:
+        scale = scale * sc[(t - 1) % len(sc)]
     g = torch.randn(tuple(shape), generator=gen, dtype=torch.float64) * scale
     if draw.get("grad_mode") == "sparse_first" and t <= draw.get("sparse_steps", 2) and g.numel() > 1:
         k = int(torch.randint(g.numel(), (1,), generator=gen))
